@@ -211,6 +211,51 @@ func Run(r *core.Run) {
 		}
 	})
 
+	// (1c) consecutive sessions on the same in-memory key data (different signer sets, orders, messages)
+	for _, kc := range []keyCase{kcs[1], kcs[2]} {
+		held := make([]edkg.LocalPartySaveData, len(kc.keys))
+		for i := range kc.keys {
+			held[i] = kc.keys[i]
+			held[i].Xi = new(big.Int).Set(kc.keys[i].Xi)
+		}
+		subs := subsetsAtLeast(len(held), kc.t+1)
+		for si := 0; si < 4; si++ {
+			sub := subs[(si*2+1)%len(subs)]
+			m := msgs[(si*3+1)%len(msgs)]
+			keys := make([]edkg.LocalPartySaveData, len(sub))
+			for k, s := range sub {
+				keys[k] = held[s]
+			}
+			name := fmt.Sprintf("%s/session %d on the same key data/signers=%v/msg=%s", kc.name, si+1, sub, m.name)
+			var order []int
+			if si%2 == 1 {
+				for i := len(sub) - 1; i >= 0; i-- {
+					order = append(order, i)
+				}
+			}
+			nw, err := netrun.New(netrun.Config{Proto: netrun.EddsaSigning, EdKeys: keys, Threshold: kc.t, Msg: m.m, FullBytesLen: m.full, Seed: r.Seed, Label: fmt.Sprint("repeat", kc.name, si), ShareKeys: true, IDOrder: order})
+			if err != nil {
+				r.Violate("repeat/constructor-error", err.Error(), name)
+				break
+			}
+			_, e, pan := nw.RunFIFO()
+			r.Count("repeat_sessions", 1)
+			if len(pan) > 0 || e != nil {
+				r.Violate(fmt.Sprintf("repeat/session-%d-fails", si+1), fmt.Sprintf("a later session on key data that has already signed fails: %v %v", e, pan), name)
+				break
+			}
+			for p, n := range nw.Nodes {
+				if len(n.Ends) != 1 {
+					r.Violate("repeat/no-result", fmt.Sprintf("node %d has %d results", p, len(n.Ends)), name)
+					continue
+				}
+				for _, pr := range oracle.CheckEddsaSig(n.Ends[0].(*common.SignatureData), keys[0].EDDSAPub, m.m, m.full) {
+					r.Violate("repeat/"+pr.Key, pr.What, name)
+				}
+			}
+		}
+	}
+
 	// (2) schedules: all schedules for 2 and 3 signers (decomposed), FIFO + 1 deviation for 4 and 5
 	var states, trans, traces int
 	si := 0
